@@ -426,6 +426,10 @@ func chainMode(r *sim.Rng, nBlocks int, cw *sim.CaseWriter) {
 			if v, how := reencodeNestedKey(r, p); v != nil && r.Chance(50) {
 				if offer(n, executed, v, how, 1) {
 					executed = append(executed, v)
+					// by construction: the signed content, the signers and the aggregate signature of an included transfer, under
+					// another byte string for the same key (the replay model compares key BYTES and cannot see this one)
+					sim.Direct(outDirG, map[string]any{"finding": "signed-content-executed-again-under-a-re-encoded-key", "kind": "an included multi-signature transfer executed again under another encoding of its (unsigned) serialized key",
+						"variant": how, "tx": fmt.Sprintf("%x", v)})
 				}
 				break
 			}
